@@ -1,8 +1,6 @@
 """C02 - no stale value survives any edit (fresh-twin oracle)."""
 from .base import PropBase, Violation
-from .. import machine, gen, refmodel as rm, refops, probe
-from ..world import World
-import modelx as mx
+from .. import history
 
 
 def swarm(rng):
@@ -49,226 +47,28 @@ class C02(PropBase):
     level = "exploration"
     rule = ("one case = one seeded history of edits/evaluations/cache operations on a generated model, checked at "
             "seeded checkpoints by the fresh-twin oracle (live model vs a model rebuilt from the accepted edits only); "
-            "non-trivial = at least one query at a checkpoint had a value held before an intervening accepted edit "
+            "non-trivial = at least one query had a value held before an intervening accepted edit "
             "and was re-requested after it; distinct = distinct event-log digest")
     tiers = {"quick": {"budget_s": 45, "timeout_s": 60}, "thorough": {"budget_s": 900, "timeout_s": 120}}
     reach_probes = ["reach/stale_candidate_rerequested", "reach/twin_checks", "reach/edit_rejected"]
+    assumptions = [
+        "fresh evaluation on the twin is itself right (C01 decides that)",
+        "answers that raise on both sides count as agreement (the statement is about returned values)",
+        "generator excludes: inheritance between a space and its own ancestors/descendants; 'relative' references "
+        "to targets outside the definer's tree; renaming cells that reach a sub through several bases; renaming or "
+        "deleting spaces that formulas reach through the untracked attribute path _model.<space> (known finding)",
+    ]
 
     def execute(self, ctx):
         if ctx.doc is None:
             ctx.cfg = swarm(ctx.rng("cfg"))
         cfg = ctx.cfg
-        mx.set_recalc(bool(cfg.get("recalc")))
-        mach = machine.Machine(ctx.seed, cfg)
-        st = State(ctx, mach)
+        run = history.Run(ctx, cfg, [history.TwinOracle("C02")])
         if ctx.doc is None:
-            mach.build(cfg["n_spaces"], cfg["n_cells"], cfg["n_refs"])
-            ctx.steps.extend(mach.steps)
-            for s in mach.steps:
-                st.after(s, None)
-            w = WEIGHTS[cfg["focus"]]
-            for i in range(cfg["n_steps"]):
-                op = mach.next_op(w)
-                st.step(op)
-                if mach.sched.random() < cfg["p_check"]:
-                    st.step({"op": "checkpoint", "extra": st.extra_queries(2)})
-            st.step({"op": "checkpoint", "extra": st.extra_queries(4)})
+            run.generate(WEIGHTS[cfg["focus"]], cfg["n_steps"], cfg["p_check"])
         else:
-            for op in ctx.doc["steps"]:
-                st.step(op)
-            if not ctx.doc["steps"] or ctx.doc["steps"][-1].get("op") != "checkpoint":
-                st.step({"op": "checkpoint", "extra": []}, record=False)
-        ctx.events = mach.events
-        ctx.nsteps = len(mach.steps)
-        ctx.stats["ops"] = mach.stats["ops"]
-        ctx.stats["rejected"] = mach.stats["rejected"]
-        ctx.count("edit_rejected", sum(mach.stats["rejected"].values()), "reach")
-
-
-class State:
-    def __init__(self, ctx, mach):
-        self.ctx = ctx
-        self.mach = mach
-        self.queries = []         # eval ops requested so far (deduped)
-        self.qkeys = set()
-        self.held_at = {}         # qkey -> number of accepted edits when last evaluated
-        self.last_cp = 0
-
-    def step(self, op, record=True):
-        if op["op"] == "checkpoint":
-            if record:
-                self.ctx.steps.append(op)
-            self.checkpoint(op)
-            return
-        out = self.mach.do(op, record=False)
-        self.mach.steps.append(op)
-        if record:
-            self.ctx.steps.append(op)
-        self.after(op, out)
-
-    def after(self, op, out):
-        if op["op"] == "eval" and out is not None and out["st"] != "skip":
-            k = repr((op["loc"], op["name"], op["args"]))
-            if k not in self.qkeys:
-                self.qkeys.add(k)
-                self.queries.append(op)
-            if out["st"] == "ok":
-                prev = self.held_at.get(k)
-                if prev is not None and prev < len(self.mach.edits):
-                    self.ctx.count("stale_candidate_rerequested", 1, "reach")
-                    self.ctx.nontrivial = True
-                self.held_at[k] = len(self.mach.edits)
-
-    def extra_queries(self, n):
-        out = []
-        for _ in range(n):
-            op = self.mach.g_eval()
-            if op:
-                out.append(op)
-        return out
-
-    def checkpoint(self, op):
-        mach = self.mach
-        qs = list(self.queries) + list(op.get("extra") or [])
-        if not qs:
-            return
-        self.ctx.count("twin_checks", 1, "reach")
-        twin = build_twin(mach.edits, "T")
-        try:
-            if twin is None:
-                return
-            tw, bad = twin
-            if bad is not None:
-                raise Violation("C02/twin-rejects-edit/" + bad["op"], {"edit": bad})
-            for q in qs:
-                if not refops.precond(mach.ref, q) or not eval_target_exists(mach.ref, q):
-                    continue
-                probe.arm(None)
-                live = mach.world.apply(q)
-                twv = tw.apply(q)
-                self.ctx.count("twin_queries", 1, "reach")
-                k = repr((q["loc"], q["name"], q["args"]))
-                if live["st"] == "ok":
-                    prev = self.held_at.get(k)
-                    if prev is not None and prev < len(mach.edits):
-                        self.ctx.count("stale_candidate_rerequested", 1, "reach")
-                        self.ctx.nontrivial = True
-                    self.held_at[k] = len(mach.edits)
-                mach.events.append("cp %s live=%s twin=%s" % (k, short(live), short(twv)))
-                if not same(live, twv):
-                    sig, culprit = self.blame(q, live, twv)
-                    raise Violation(sig, {"query": q, "live": live, "twin": twv, "culprit": culprit})
-        finally:
-            if twin is not None:
-                try:
-                    twin[0].m.close()
-                except Exception:
-                    pass
-
-    def blame(self, q, live, twv):
-        """Find the first step after which the mismatch is observable; classify that edit."""
-        steps = [s for s in self.mach.steps if s["op"] != "checkpoint"]
-        kind = "%s!=%s" % (short_kind(live), short_kind(twv))
-        lo = 0
-        culprit = None
-        try:
-            for j in range(1, len(steps) + 1):
-                if steps[j - 1]["op"] in ("eval", "gc"):
-                    continue
-                mm, last = mismatch_after(self.mach.seed, self.mach.cfg, steps[:j], q, j)
-                if mm:
-                    culprit = steps[j - 1]
-                    if last is not None and last.get("st") == "rej":
-                        return "C02/rejected-edit-changed-answers/%s" % (classify_edit(culprit),), culprit
-                    break
-        except Exception as e:
-            culprit = None
-        if culprit is None:
-            return "C02/stale/%s/edit=?" % kind, None
-        return "C02/stale/%s/edit=%s" % (kind, classify_edit(culprit)), culprit
-
-
-def classify_edit(op):
-    k = op["op"]
-    if k == "set_ref":
-        return "set_ref:%s:%s:%s" % ("model" if not op.get("space") else "space", op["value"]["t"], op.get("mode") or "plain")
-    if k in ("clear_at", "clear", "clear_all", "space_clear_cells", "space_clear_all", "set_value"):
-        return k
-    return k
-
-
-def mismatch_after(seed, cfg, steps, q, tag):
-    m2 = machine.Machine(seed, cfg, name="B%d" % tag)
-    try:
-        last = None
-        for s in steps:
-            last = m2.do(s, record=False)
-        tw = build_twin(m2.edits, "BT%d" % tag)
-        if tw is None or tw[1] is not None:
-            return False, last
-        try:
-            if not eval_target_exists(m2.ref, q):
-                return False, last
-            a = m2.world.apply(q)
-            b = tw[0].apply(q)
-            return (not same(a, b)), last
-        finally:
-            tw[0].m.close()
-    finally:
-        m2.world.m.close()
-
-
-def build_twin(edits, name):
-    tw = World(name)
-    for e in edits:
-        out = tw.apply(e)
-        if out["st"] != "ok":
-            return tw, dict(e, twin_outcome=out)
-    return tw, None
-
-
-def eval_target_exists(ref, q):
-    cur = ref
-    for seg in q["loc"]:
-        if isinstance(seg, str):
-            cur = cur.spaces.get(seg) if cur is not None else None
-            if cur is None:
-                return False
-        else:
-            if cur.formula is None:
-                return False
-            need = [p for p, d in cur.formula["params"] if d is None]
-            if not (len(need) <= len(seg[1]) <= len(cur.formula["params"])):
-                return False
-            ret = cur.formula.get("ret")
-            if ret and "base" in ret:
-                cur = ref.space(ret["base"])
-                if cur is None:
-                    return False
-    try:
-        return q["name"] in rm.derived_cells(cur)
-    except rm.NoMRO:
-        return False
-
-
-def same(a, b):
-    """The statement is about *values the model returns*: an answer that raises on both sides returns no
-    value on either, so only value-vs-value and value-vs-exception disagreements count."""
-    if a["st"] != "ok" and b["st"] != "ok":
-        return True
-    if a["st"] != b["st"]:
-        return False
-    if a["st"] == "ok":
-        return a["val"] == b["val"]
-    return a.get("exc") == b.get("exc")
-
-
-def short(o):
-    return o.get("val") if o["st"] == "ok" else "!" + str(o.get("exc"))
-
-
-def short_kind(o):
-    return "val" if o["st"] == "ok" else "exc:" + str(o.get("exc"))
+            run.replay(ctx.doc["steps"])
+        run.finish()
 
 
 PROP = C02()
